@@ -771,6 +771,17 @@ func (run *Run) recordStep(si StepInfo) {
 	for _, e := range evs {
 		line += fmt.Sprintf(" {%s %s/%s %s}", e.Kind, e.Job, e.Task, e.Arg)
 	}
+	if run.sc.Cfg.WCrash > 0 {
+		// Jobs created at the same instant are ranked by retention in an order that, after a restart, goes back to
+		// Go's map iteration order (the store file lists jobs in map order). That is legal - ties are free - but it
+		// is not replayable, so in configurations with restarts no two jobs get the same creation time.
+		for _, r := range si.Results {
+			if r.Op.Kind == "schedule" && r.Job != "" {
+				run.core.advanceExactly(time.Microsecond)
+				break
+			}
+		}
+	}
 	run.trace = append(run.trace, line)
 	run.choices = append(run.choices, si.Name)
 	if run.CrashLog != "" {
